@@ -258,7 +258,7 @@ def frame_part(res, rng, tier):
         for i in range(n):
             if (c.particles[i].x, c.particles[i].vz) != (a.particles[i].x + b.particles[i].x, a.particles[i].vz + b.particles[i].vz):      # (coordinates only; masses are not added)
                 viol(res, "sim-add", i=i)
-            if (d.particles[i].x, d.particles[i].vz) != (a.particles[i].x, a.particles[i].vz):
+            if (d.particles[i].x, d.particles[i].vz) != (c.particles[i].x - b.particles[i].x, c.particles[i].vz - b.particles[i].vz):   # componentwise, not (a+b)-b == a
                 viol(res, "sim-sub", i=i)
             if (e.particles[i].x, e.particles[i].vy) != (2 * a.particles[i].x, 2 * a.particles[i].vy):
                 viol(res, "sim-mul", i=i)
